@@ -7,7 +7,7 @@ from . import runner
 PLANS = {
     "C12": {
         "level": "fault_enumeration",
-        "parts": [("sockframe", "directed", None, None), ("sockframe", "gen", 20000, 400000)],
+        "parts": [("sockframe", "directed", None, None), ("sockframe", "gen", 100000, 3000000)],
         "budget_s": {"quick": 60, "thorough": 600},
         "rule": ("scenario = (direction, frame body length, composition of the frame into raw recv/send "
                  "chunk sizes, optional fault {FIN,RST,timeout,EPIPE,send==0} at a byte position); directed set: "
@@ -33,7 +33,7 @@ LOGIX_RULE = ("scenario = generated controller project (types, tags, memory imag
               "executed at the target, number of multi-service packets, request-count class, planted-invalid kinds)")
 
 
-def _logix(prop, level, qn, tn, directed=False, budget=(90, 900), extra_rule="", assumptions=()):
+def _logix(prop, level, qn, tn, directed=False, budget=(180, 1800), extra_rule="", assumptions=()):
     parts = []
     if directed:
         parts.append(("logix", "directed", None, None))
@@ -45,21 +45,21 @@ def _logix(prop, level, qn, tn, directed=False, budget=(90, 900), extra_rule="",
 
 
 PLANS.update({
-    "C01": _logix("C01", "exploration", 1500, 30000),
-    "C02": _logix("C02", "exploration", 1500, 30000),
-    "C03": _logix("C03", "exploration", 1500, 30000, directed=True),
-    "C04": _logix("C04", "exploration", 600, 12000, directed=True, budget=(120, 1200),
+    "C01": _logix("C01", "exploration", 6000, 200000),
+    "C02": _logix("C02", "exploration", 6000, 200000),
+    "C03": _logix("C03", "exploration", 6000, 200000, directed=True),
+    "C04": _logix("C04", "exploration", 2500, 60000, directed=True, budget=(180, 1800),
                   extra_rule="; directed set: every tag size in [cs-64, cs+64] and around 2cs (3cs thorough) x name length x "
                              "read/write x alone/next to a small tag for cs in {500, 4000}"),
-    "C05": _logix("C05", "exploration", 1200, 25000),
-    "C09": _logix("C09", "exploration", 1500, 30000),
-    "C11": _logix("C11", "exploration", 1500, 30000),
-    "C17": _logix("C17", "exploration", 800, 16000, directed=True),
+    "C05": _logix("C05", "exploration", 3000, 80000),
+    "C09": _logix("C09", "exploration", 5000, 150000),
+    "C11": _logix("C11", "exploration", 4000, 100000),
+    "C17": _logix("C17", "exploration", 3000, 80000, directed=True),
 })
 
 PLANS["C10"] = {
     "level": "fault_enumeration",
-    "parts": [("lifecycle", "directed", None, None), ("lifecycle", "gen", 4000, 80000)],
+    "parts": [("lifecycle", "directed", None, None), ("lifecycle", "gen", 15000, 400000)],
     "budget_s": {"quick": 120, "thorough": 1200},
     "rule": ("scenario = driver class (LogixDriver/CIPDriver) x target policy {large FO ok, large refused, all refused, session "
              "refused, forward close refused} x call history over open/close/read/write/generic(connected|unconnected|"
@@ -83,25 +83,25 @@ GEN_RULE = ("scenario = chassis layout (bare device / CompactLogix / ControlLogi
             "helpers get_plc_name/info, get_module_info(slot), get/set_plc_time under the virtual clock; list_identity and discover "
             "over simulated UDP with drop/duplicate/reorder. distinct = distinct (call kind, transport, outcome, route form, data "
             "type) sequences")
-PLANS["C14"] = {"level": "exploration", "parts": [("generic", "gen", 3000, 60000)], "budget_s": {"quick": 90, "thorough": 900},
+PLANS["C14"] = {"level": "exploration", "parts": [("generic", "gen", 10000, 400000)], "budget_s": {"quick": 90, "thorough": 900},
                 "rule": GEN_RULE, "real": LOGIX_REAL, "stub": LOGIX_STUB,
                 "assumptions": ["a direct UCMM generic message carries the route after the request data by documented design "
                                 "(DESIGN 3.4 rule 2): objects accept trailing bytes and the oracle expects request_data + route",
                                 "unconnected_send=True with route_path=False and bytes ids of length other than 1/2/4 are not generated "
                                 "(DESIGN 6 C14)"]}
-PLANS["C16"] = {"level": "exploration", "parts": [("generic", "gen", 3000, 60000)], "budget_s": {"quick": 90, "thorough": 900},
+PLANS["C16"] = {"level": "exploration", "parts": [("generic", "gen", 10000, 400000)], "budget_s": {"quick": 90, "thorough": 900},
                 "rule": GEN_RULE, "real": LOGIX_REAL, "stub": LOGIX_STUB,
                 "assumptions": ["vendor / product-type NAMES come from the library's own tables (naming dictionary only); ids, "
                                 "widths, order and formatting are the reference's",
                                 "for-all-values is seeded sampling with boundary bias, not enumeration"]}
-PLANS["C09"]["parts"].append(("generic", "gen", 1500, 30000))
-PLANS["C11"]["parts"].append(("generic", "gen", 1000, 20000))
-PLANS["C11"]["parts"].append(("lifecycle", "gen", 1000, 20000))
-PLANS["C17"]["parts"].append(("lifecycle", "gen", 1000, 20000))
+PLANS["C09"]["parts"].append(("generic", "gen", 5000, 150000))
+PLANS["C11"]["parts"].append(("generic", "gen", 4000, 100000))
+PLANS["C11"]["parts"].append(("lifecycle", "gen", 6000, 150000))
+PLANS["C17"]["parts"].append(("lifecycle", "gen", 3000, 80000))
 
 PLANS["C13"] = {
     "level": "fault_enumeration",
-    "parts": [("replyfault", "directed", None, None), ("replyfault", "gen", 6000, 120000)],
+    "parts": [("replyfault", "directed", None, None), ("replyfault", "gen", 20000, 600000)],
     "budget_s": {"quick": 150, "thorough": 1500},
     "rule": ("scenario = request kind (generic connected/UCMM/Unconnected Send, read, fragmented read, write, fragmented write, "
              "read-modify-write, multi-service read/write, symbol-list page, template read, template attributes, register session, "
@@ -121,7 +121,7 @@ PLANS["C13"] = {
 
 PLANS["C18"] = {
     "level": "exploration",
-    "parts": [("slc", "directed", None, None), ("slc", "gen", 3000, 60000)],
+    "parts": [("slc", "directed", None, None), ("slc", "gen", 10000, 300000)],
     "budget_s": {"quick": 90, "thorough": 900},
     "rule": ("scenario = generated SLC data table (O0, I1, S2, B3, T4, C5, N7, F8 + extra N/B/F/L/T/C files up to number 255) + "
              "call list of reads/writes over addresses drawn from the documented grammar (word, /bit, Bf/n, {count}, T/C "
@@ -136,8 +136,8 @@ PLANS["C18"] = {
                     "I/O files are addressed logical-by-slot with a per-run number of words per slot",
                     "writes to timer/counter sub-elements and bit forms of float files are not generated (statement covers reads)"],
 }
-PLANS["C11"]["parts"].append(("slc", "gen", 500, 10000))
-PLANS["C17"]["parts"].append(("slc", "gen", 500, 10000))
+PLANS["C11"]["parts"].append(("slc", "gen", 2000, 50000))
+PLANS["C17"]["parts"].append(("slc", "gen", 2000, 50000))
 
 
 def plan_for(prop, tier):
